@@ -5,8 +5,17 @@
    ones/zeros/full) 1) is strictly decreased by every rule and is strictly
    monotone in every child, so any sequence of applications of these rules, at any positions of an
    expression, has length at most mu of the initial expression: simplification with these rules
-   terminates, and at its fixpoint no rule applies (a second pass changes nothing). *)
-From DA Require Import PyBase Slicing NdArray ExprRules ExprRulesFacts ExprRulesFacts2.
+   terminates, and at its fixpoint no rule applies (a second pass changes nothing).
+
+   The second half of the file lifts these per-rule facts to the WHOLE REWRITE SYSTEM (theories/Rewrite.v): the one-step
+   relation [rstep] (one of the 18 measure-decreasing rules [simp_rules] at any position of an expression), its
+   termination ([mu] bounds the length of every rewrite sequence; well-foundedness), the decision procedure [applicable],
+   and the executable strategy [simplify_model] (outermost-first sweeps in the library's hook order, repeated until nothing
+   applies, as Expr.simplify does): it only takes steps of the relation, reaches a normal form with fuel [mu e] on EVERY
+   expression, and is idempotent.  The system is not confluent (C08_confluence_refuted: a critical pair reachable through
+   the public API; both normal forms denote the same array).  harness/c08.py (fam_normal_forms) ties the normal forms to
+   the real optimizer: the reified result of the real expr.simplify() is checked in Coq to be a normal form. *)
+From DA Require Import PyBase Slicing NdArray ExprRules ExprRulesFacts ExprRulesFacts2 Rewrite RewriteFacts.
 Open Scope Z_scope.
 
 Theorem C08_rules_decrease_measure :
@@ -95,8 +104,124 @@ Example C08_measure_concat_ex :
   exists after, rule_slice_concat before = Some after /\ mu before = 12%nat /\ mu after = 7%nat.
 Proof. eexists. vm_compute. repeat split; reflexivity. Qed.
 
+(* ====================================================================== *)
+(* the whole rewrite system *)
+
+(* (a) one step, at any position, with any of the 18 rules, decreases the measure *)
+Theorem C08_step_decreases_measure : forall e e', rstep e e' -> (mu e' < mu e)%nat.
+Proof. exact rstep_mu. Qed.
+
+(* (b) every rewrite sequence e -> x1 -> ... -> xn has n < mu e *)
+Theorem C08_rewrite_sequences_bounded : forall e es, chain e es -> (length es <= mu e)%nat.
+Proof. exact (fun e es => chain_length es e). Qed.
+
+Theorem C08_rewrite_sequences_bounded_strict : forall e es, chain e es -> (S (length es) <= mu e)%nat.
+Proof. exact (fun e es => chain_length_lt es e). Qed.
+
+Theorem C08_rewriting_well_founded : well_founded (fun a b => rstep b a).
+Proof. exact rstep_well_founded. Qed.
+
+(* [applicable] decides whether some rule fires somewhere; its negation is being a normal form *)
+Theorem C08_applicable_decides_reducibility : forall e, applicable e = true <-> exists e', rstep e e'.
+Proof. exact applicable_iff. Qed.
+
+Theorem C08_not_applicable_iff_normal : forall e, applicable e = false <-> (forall e', ~ rstep e e').
+Proof. exact applicable_false_normal. Qed.
+
+(* the enumeration of successors used by the confluence search only produces steps of the relation *)
+Theorem C08_all_steps_sound : forall e e', In e' (all_steps e) -> rstep e e'.
+Proof. exact all_steps_sound. Qed.
+
+Theorem C08_all_steps_complete : forall e e', rstep e e' -> In e' (all_steps e).
+Proof. exact all_steps_complete. Qed.
+
+(* what the confluence search of the harness reports are normal forms reachable from e: two different members of
+   [normal_forms e] refute confluence at e, and "the real result is a member" means the real optimizer's result is
+   reachable from the raw expression by steps of the model relation and is a normal form of it *)
+Theorem C08_normal_forms_sound : forall e a, In a (normal_forms e) -> rsteps e a /\ normal a.
+Proof. exact normal_forms_sound. Qed.
+
+(* the strategy only takes steps of the relation ... *)
+Theorem C08_simplify_model_rewrites : forall e, rsteps e (simplify_model e).
+Proof. exact simplify_model_rsteps. Qed.
+
+(* (c) ... and the fuel [mu e] always suffices: its result is a normal form, for every expression *)
+Theorem C08_simplify_model_normal_form : forall e, applicable (simplify_model e) = false.
+Proof. exact simplify_model_normal. Qed.
+
+Theorem C08_simplify_fuel_suffices :
+  forall n e, (mu e <= n)%nat -> applicable (simplify_fuel n e) = false /\ simplify_fuel n e = simplify_model e.
+Proof.
+  exact (fun n e H => conj (simplify_fuel_normal n e H) (simplify_fuel_stable n (mu e) e H (le_n (mu e)))).
+Qed.
+
+(* a sweep over a reducible expression makes progress, a sweep over a normal form changes nothing
+   (the fixpoint test of Expr.simplify: `new._name == expr._name`) *)
+Theorem C08_sweep_progress : forall e, applicable e = true -> (mu (simplify_pass e) < mu e)%nat.
+Proof. exact simplify_pass_mu_lt. Qed.
+
+Theorem C08_sweep_fixpoint : forall e, applicable e = false -> simplify_pass e = e.
+Proof. exact simplify_pass_normal. Qed.
+
+(* (d) idempotence: optimizing twice gives the same expression as optimizing once *)
+Theorem C08_simplify_model_idempotent : forall e, simplify_model (simplify_model e) = simplify_model e.
+Proof. exact simplify_model_idempotent. Qed.
+
+Theorem C08_simplify_model_fixes_normal_forms : forall e, applicable e = false -> simplify_model e = e.
+Proof. exact simplify_model_of_normal. Qed.
+
+(* (e) CONFLUENCE FAILS.  Full statement that would make the normal form independent of the rewriting order:
+     forall e a b, rsteps e a -> rsteps e b -> normal a -> normal b -> a = b.
+   It is false of the model, with a well-formed witness reachable through the public API (Rewrite.cp_raw):
+     x = da.from_array(np.arange(60).reshape(12, 5), chunks=((4, 2, 5, 1), (3, 1, 1)));  y = (x * 2)[::2, 2:4:2];  z = y[:, ::2]
+   fusing the two slices first gives  (x[::2, 2:4:4]) * 2,  pushing the inner slice through the multiplication first gives
+   (x[::2, 2:4:2]) * 2.  Replayed against the implementation: z.expr.simplify() is the first, simplifying y and then
+   slicing and simplifying again is the second; the names differ, the computed arrays are equal (both select column 2). *)
+Theorem C08_confluence_refuted :
+  exists e a b, wfb e = true /\ rsteps e a /\ rsteps e b /\ normal a /\ normal b /\ a <> b.
+Proof. exact confluence_refuted. Qed.
+
+(* non-vacuity *)
+Example C08_chain_ex :
+  let x := ELeaf 1 [4; 3] [[4]; [3]] in let y := ELeaf 2 [3] [[3]] in
+  let e0 := ESlice (ETranspose (ETranspose (EElemwise 1 [x; y]) [1; 0]%nat) [1; 0]%nat)
+              [ISlice (mkslice (Some 1) None None); IInt 0] true in
+  exists e1 e2 e3, chain e0 [e1; e2; e3] /\ mu e0 = 21%nat /\ applicable e3 = false.
+Proof. exact chain_example. Qed.
+
+Example C08_simplify_model_ex :
+  let x := ELeaf 1 [4; 3] [[4]; [3]] in let y := ELeaf 2 [3] [[3]] in
+  let e0 := ESlice (ETranspose (ETranspose (EElemwise 1 [x; y]) [1; 0]%nat) [1; 0]%nat)
+              [ISlice (mkslice (Some 1) None None); IInt 0] true in
+  applicable e0 = true /\
+  simplify_model e0 = EElemwise 1 [ESlice x [ISlice (mkslice (Some 1) None None); IInt 0] true; ESlice y [IInt 0] true] /\
+  length (all_steps e0) = 2%nat /\ normal_forms e0 = [simplify_model e0].
+Proof. vm_compute. repeat split; reflexivity. Qed.
+
+Example C08_critical_pair_ex :
+  wfb cp_raw = true /\ simplify_model cp_raw = cp_nf1 /\ normal_forms cp_raw = [cp_nf1; cp_nf2] /\
+  expr_eqb cp_nf1 cp_nf2 = false /\ eshape cp_nf1 = [6; 1] /\ eshape cp_nf2 = [6; 1].
+Proof. vm_compute. repeat split; reflexivity. Qed.
+
 Print Assumptions C08_rules_decrease_measure.
 Print Assumptions C08_measure_monotone_unary.
 Print Assumptions C08_measure_monotone_elemwise.
 Print Assumptions C08_measure_positive.
 Print Assumptions C08_measure_monotone_concat_stack.
+Print Assumptions C08_step_decreases_measure.
+Print Assumptions C08_rewrite_sequences_bounded.
+Print Assumptions C08_rewrite_sequences_bounded_strict.
+Print Assumptions C08_rewriting_well_founded.
+Print Assumptions C08_applicable_decides_reducibility.
+Print Assumptions C08_not_applicable_iff_normal.
+Print Assumptions C08_all_steps_sound.
+Print Assumptions C08_all_steps_complete.
+Print Assumptions C08_normal_forms_sound.
+Print Assumptions C08_simplify_model_rewrites.
+Print Assumptions C08_simplify_model_normal_form.
+Print Assumptions C08_simplify_fuel_suffices.
+Print Assumptions C08_sweep_progress.
+Print Assumptions C08_sweep_fixpoint.
+Print Assumptions C08_simplify_model_idempotent.
+Print Assumptions C08_simplify_model_fixes_normal_forms.
+Print Assumptions C08_confluence_refuted.
